@@ -668,8 +668,9 @@ class RemoteWorker(Worker, metaclass=RemoteWorkerMeta):
                 self._init_child()
 
                 logger.debug('Running the main function')
-                result = self.do_work()
-                result = (True, result)
+                # (in one statement: whatever is found in result afterwards is a complete outcome, also if something which is
+                # not an Exception - e.g., KeyboardInterrupt - arrives right here)
+                result = (True, self.do_work())
             except Exception as e:
                 logger.exception('Exception occurred while running the main function')
                 result = (False, e)
